@@ -41,11 +41,12 @@ type dirState struct {
 	// 0 = requested, 1 = response started, 2 = terminal seen
 	resp     map[uint32]int
 	terminal map[uint32]string
+	terminalEv map[uint32]int64 // event at which the terminal frame was written
 	tainted  map[uint32]bool
 }
 
 func newDirState() *dirState {
-	return &dirState{open: map[uint64]*wireMsg{}, inflight: map[uint32]bool{}, resp: map[uint32]int{}, terminal: map[uint32]string{}, tainted: map[uint32]bool{}}
+	return &dirState{open: map[uint64]*wireMsg{}, inflight: map[uint32]bool{}, resp: map[uint32]int{}, terminal: map[uint32]string{}, terminalEv: map[uint32]int64{}, tainted: map[uint32]bool{}}
 }
 
 func newWireOracle(w *World) *wireOracle {
@@ -61,7 +62,12 @@ func (l *Link) emitter(dir int) string {
 
 func isRealNode(owner string) bool { return owner != "" && !strings.HasPrefix(owner, "raw") }
 
-func (w *World) onFrame(tf *TapFrame) { w.wireOr.frame(tf) }
+func (w *World) onFrame(tf *TapFrame) {
+	if w.cfg.Trace {
+		w.event("frame", "link%d dir%d #%d by %s: %v err=%v", tf.Conn.ID, tf.Dir, tf.Seq, tf.Conn.emitter(tf.Dir), tf.F, tf.Err)
+	}
+	w.wireOr.frame(tf)
+}
 
 func (o *wireOracle) state(l *Link) *[2]*dirState {
 	st := o.dirs[l]
@@ -129,7 +135,7 @@ func (o *wireOracle) frame(tf *TapFrame) {
 				other.resp[f.ID] = 0
 				delete(other.terminal, f.ID)
 			}
-		} else if m == nil {
+		} else if m == nil && !(isRes && real && !me.tainted[f.ID] && me.resp[f.ID] == 2) {
 			if real {
 				if isRes {
 					w.violate("C10", "continuation-without-start", "%s: %s without a preceding call-res frame", where, f)
@@ -147,7 +153,8 @@ func (o *wireOracle) frame(tf *TapFrame) {
 			case !requested:
 				w.violate("C10", "response-for-unrequested-id", "%s: %s but id %d was never requested on this connection", where, f, f.ID)
 			case stt == 2:
-				w.violate("C10", "frame-after-terminal", "%s: %s after the terminal frame (%s) of id %d", where, f, me.terminal[f.ID], f.ID)
+				w.violate("C10", "frame-after-terminal", "%s: %s after the terminal frame (%s) of id %d; %s", where, f, me.terminal[f.ID], f.ID, o.lateFrameOrigin(tf, me.terminalEv[f.ID]))
+				return
 			case isFirst && stt == 1:
 				w.violate("C10", "second-call-res", "%s: %s but a response for id %d had already started", where, f, f.ID)
 			case !isFirst && stt == 0:
@@ -158,9 +165,13 @@ func (o *wireOracle) frame(tf *TapFrame) {
 				} else {
 					me.resp[f.ID] = 2
 					me.terminal[f.ID] = "last response fragment"
+					me.terminalEv[f.ID] = tf.WEv
 					delete(other.inflight, f.ID)
 				}
 			}
+		}
+		if m == nil {
+			return
 		}
 		m.frames++
 		m.last = tf
@@ -213,10 +224,11 @@ func (o *wireOracle) frame(tf *TapFrame) {
 			if requested {
 				w.eval("C10.response-frame")
 				if stt == 2 {
-					w.violate("C10", "frame-after-terminal", "%s: %s after the terminal frame (%s) of id %d", where, f, me.terminal[f.ID], f.ID)
+					w.violate("C10", "frame-after-terminal", "%s: %s after the terminal frame (%s) of id %d; %s", where, f, me.terminal[f.ID], f.ID, o.lateFrameOrigin(tf, me.terminalEv[f.ID]))
 				} else {
 					me.resp[f.ID] = 2
 					me.terminal[f.ID] = fmt.Sprintf("error frame code %#x", f.ErrCode)
+					me.terminalEv[f.ID] = tf.WEv
 					delete(other.inflight, f.ID)
 					// an unfinished response message of this id ends here
 					delete(me.open, uint64(f.ID)<<1|1)
@@ -224,6 +236,41 @@ func (o *wireOracle) frame(tf *TapFrame) {
 			}
 		}
 	}
+}
+
+// lateFrameOrigin says, for a frame a relay emitted after the terminal frame of
+// its id, whether the relay had already READ that frame from its source
+// connection when it wrote the terminal (an in-flight race) or read it only
+// afterwards (a frame that should have met a tombstone).
+func (o *wireOracle) lateFrameOrigin(late *TapFrame, terminalEv int64) string {
+	em := late.Conn.emitter(late.Dir)
+	var src *TapFrame
+	for _, l := range o.w.Net.Links {
+		for d := 0; d < 2; d++ {
+			recv := l.B.Owner
+			if d == 1 {
+				recv = l.A.Owner
+			}
+			if recv != em || l == late.Conn {
+				continue
+			}
+			for _, tf := range l.Frames[d] {
+				if tf.REv == 0 || tf.REv > late.WEv || tf.F == nil || len(tf.F.Raw) != len(late.F.Raw) || tf.F.Type != late.F.Type {
+					continue
+				}
+				if string(tf.F.Raw[wire.HeaderSize:]) == string(late.F.Raw[wire.HeaderSize:]) && (src == nil || tf.REv > src.REv) {
+					src = tf
+				}
+			}
+		}
+	}
+	if src == nil {
+		return "source frame not identified"
+	}
+	if src.REv < terminalEv {
+		return fmt.Sprintf("the relay had read this frame (#%d) BEFORE it wrote the terminal (#%d): in-flight race", src.REv, terminalEv)
+	}
+	return fmt.Sprintf("the relay read this frame (#%d) AFTER it wrote the terminal (#%d)", src.REv, terminalEv)
 }
 
 // complete is called when the last fragment of a call message was emitted.
